@@ -10,6 +10,7 @@
 import io
 import json
 import os
+import re
 
 from .. import core, tlcrun, par, impl
 
@@ -55,8 +56,7 @@ def expected_reply(call, widths):
     if op == 'warn':
         if not reply:
             return []
-        nr1, w1, nr2, w2 = reply
-        return ['Number of fields in "input" table is not consistent: e.g. record %d -> %d fields, record %d -> %d fields' % (nr1, w1, nr2, w2)]
+        return [list(reply)]          # one warning naming record nr1 with w1 fields and record nr2 with w2 fields (numbers only: the wording is free)
     return None
 
 
@@ -78,7 +78,7 @@ def _replay_chunk(items):
                 elif op == 'hdr':
                     got = it.get_header()
                 elif op == 'warn':
-                    got = it.get_warnings()
+                    got = [[int(x) for x in re.findall(r'\d+', w)] for w in it.get_warnings()]
                 else:
                     it.handle_query_modifier('header' if call['arg'] == 1 else 'noheader')
                     got = None
@@ -150,6 +150,9 @@ def check(run, quick):
         run.notes.setdefault('spec_mutants_rejected', []).append('ReaderApi/%s -> %s' % (mut, mres.violation))
     res = tlcrun.run_tlc('ReaderApi', tlcrun.write_cfg(os.path.join(d, 'ra.cfg'), constants=dict(base, EmitCases='TRUE'), invariants=INVS + ['Emit']), timeout=3600)
     run.add_tlc('ReaderApi:recs<=3,calls=%d' % base['MaxCalls'], res)
+    if not quick:
+        deep = tlcrun.run_tlc('ReaderApi', tlcrun.write_cfg(os.path.join(d, 'deep.cfg'), constants=dict(base, MaxRecs=4, MaxCalls=5), invariants=INVS), timeout=3600, want_cases=False)
+        run.add_tlc('ReaderApi:recs<=4,calls=5 (invariants only)', deep)
     if len(res.cases) < 1000:
         core.machinery_failure('ReaderApi emitted only %d histories' % len(res.cases))
     items = []
